@@ -407,3 +407,115 @@ def _root_key(root):
     if root[0] == "multi":
         return ("local", root[1])
     return None
+
+
+# ---------------------------------------------------------------------------------------------
+# R-SNAPSHOT-WRITEBACK (C19): a whole container is never overwritten with a stale copy of itself
+
+def rule_snapshot_writeback(cx, tier):
+    r = RuleResult("R-SNAPSHOT-WRITEBACK", "no operation replaces the whole contents of a shared list or map "
+                                           "(`*x.data_mut() = copy`) with a value derived from a copy that it took under an "
+                                           "earlier, separate lock acquisition of the same container (`x.data().clone()`): every "
+                                           "insert, remove or assignment that another runtime makes in between is overwritten "
+                                           "-- a lost update, whether or not user code runs in between")
+    from .narrow import Sym, place_fields as pf
+    F = cx.F
+    n = 0
+    for fn in F.fns.values():
+        if fn.crate.uname != "koto_runtime" or fn.derived:
+            continue
+        du = cx.du(fn)
+        sym = None
+        for b in fn.blocks:
+            if b.cleanup:
+                continue
+            for st in b.stmts:
+                if st[0] != "a" or "*" not in st[1][1] or st[2][0] != "use":
+                    continue
+                if [p for p in st[1][1] if p != "*"]:
+                    continue                        # a field / element, not the whole value
+                # the target: deref of deref_mut(&mut guard) with guard = data_mut(handle)
+                rr = _root_full(du, st[1][0])
+                if rr[0] != "call" or rr[1].short.rsplit("::", 1)[-1] != "data_mut" or \
+                        not (rr[1].short.startswith("koto_runtime::KList::") or rr[1].short.startswith("koto_runtime::KMap::")):
+                    continue
+                n += 1
+                r.instances += 1
+                r.nontrivial += 1
+                sym = sym or Sym(cx, fn)
+                guard_call = rr[1]
+                hp = op_place(guard_call.args[0]) if guard_call.args else None
+                handle = sym.canon(hp[0], pf(hp)) if hp is not None else None
+                # the value: does it derive from clone(data(handle)) of the same handle
+                stale = None
+                seen = set()
+                work = [op_base(st[2][1])]
+                while work:
+                    l = work.pop()
+                    if l is None or l in seen or len(seen) > 60:
+                        continue
+                    seen.add(l)
+                    for d in du.defs.get(l, []):
+                        if d[2] == "call":
+                            c = d[3]
+                            if c.is_("Clone::clone") and c.args:
+                                r2 = du.root(op_base(c.args[0]), through_calls=("Deref::deref",))
+                                if r2[0] == "field":
+                                    r2 = r2[1]
+                                if r2[0] == "call" and r2[1].short.rsplit("::", 1)[-1] == "data" and r2[1].args:
+                                    hp2 = op_place(r2[1].args[0])
+                                    if hp2 is not None and sym.canon(hp2[0], pf(hp2)) == handle:
+                                        stale = c
+                            for a in c.args:
+                                work.append(op_base(a))
+                        elif d[2] in ("assign", "partial"):
+                            from ..mir import rv_places
+                            for pl in rv_places(d[3]):
+                                work.append(pl[0])
+                    # values modified in place through &mut (sort_values(&mut data)) keep their origin
+                from ..mir import line_of
+                line = loc_line_st(st, fn)
+                r.sample({"fn": cx.label(fn), "line": line, "container": handle, "stale_copy": stale is not None})
+                if stale is not None:
+                    r.add(Finding("R-SNAPSHOT-WRITEBACK", cx.label(fn), f"{handle}",
+                                  f"the contents of `{handle}` are replaced by a value derived from the copy taken at line "
+                                  f"{stale.line} under a separate lock acquisition: an update that another runtime makes to "
+                                  f"the container in between is lost", fn.file, line))
+    n_guards = 0
+    for fn in F.fns.values():
+        if fn.crate.uname == "koto_runtime" and not fn.derived:
+            n_guards += sum(1 for c in fn.calls() if c.short in ("koto_runtime::KList::data_mut", "koto_runtime::KMap::data_mut"))
+    r.instances += n_guards        # every mutable guard was examined for an assignment of the whole value through it
+    r.analysed = {"whole_container_assignments": n, "mutable_guards_examined": n_guards}
+    r.floor("data_mut() guard acquisitions in koto_runtime", n_guards, 40)
+    return r
+
+
+def _root_full(du, local, hops=0):
+    """like DefUse.root, but writes *through* the local (partial definitions) do not hide its own definition"""
+    while local is not None and hops < 16:
+        hops += 1
+        ds = du.full_defs(local)
+        if len(ds) != 1:
+            return ("multi", local)
+        d = ds[0]
+        if d[2] == "call":
+            c = d[3]
+            nm = (c.callee or "") + " " + (c.resolved or "")
+            if ("deref_mut" in nm or "Deref::deref" in nm or "::deref" in nm) and c.args:
+                local = op_base(c.args[0])
+                continue
+            return ("call", c)
+        rv = d[3]
+        if rv[0] in ("use", "cast"):
+            local = op_base(rv[1] if rv[0] == "use" else rv[2])
+        elif rv[0] in ("ref", "rawptr"):
+            local = rv[2][0]
+        else:
+            return ("rv", rv)
+    return ("multi", local)
+
+
+def loc_line_st(st, fn):
+    from ..facts import loc_line
+    return loc_line(st[3]) if len(st) > 3 else fn.line
